@@ -185,7 +185,7 @@ def make_case(rng, code, kind, chain, comments, style, file="/w/src/app.js", par
         usable = True
     elif kind == "missing":
         ref = "//# sourceMappingURL=nowhere.map"
-        if parent != "none" and d not in ("", "/"):
+        if parent != "none" and file.startswith("/") and d not in ("", "/") and not file.endswith("/"):
             # a map of that name exists relative to the working directory: it is NOT the file's map
             decoy = json.dumps({"version": 3, "sources": ["other/project.ts"], "names": [], "mappings": "AAAA;AACA;AACA;AACA;AACA"})
             reader["files"]["nowhere.map"] = {"kind": "ok", "content": decoy}
